@@ -41,6 +41,7 @@ CONS_RTOL = 1e-6
 CONS_ATOL = 1e-12
 LNQ_TOL = 1e-5
 ABSENT = 1e-10        # a solid below this concentration counts as absent
+SYMPTOMS = ("nonfinite", "element_lost", "negative", "conservation", "quotient", "precipitation")  # priority
 RATE_MIN = 0.95
 RATE_MIN_CASES = 40
 
@@ -169,21 +170,28 @@ def _call(es, case, chain):
 
 
 def _oracle(case, x):
-    """List of reasons why x is NOT a genuine equilibrium composition for the case (empty = genuine)."""
+    """List of (symptom, text): why x is NOT a genuine equilibrium composition (empty = genuine).
+    symptom in: nonfinite, negative, element_lost (an element's whole amount has vanished from x: the
+    least-squares solver stopped in a local minimum with some log-concentrations -> -inf), conservation,
+    quotient, precipitation."""
     names, c0 = case["names"], case["c0"]
     bad = []
     if any(not math.isfinite(v) for v in x):
-        return ["non-finite concentration %r" % (x,)]
+        return [("nonfinite", "non-finite concentration %r" % (x,))]
     for n, v in zip(names, x):
         if v < -X_NEG_TOL:
-            bad.append("negative concentration %s=%.3e" % (n, v))
+            bad.append(("negative", "negative concentration %s=%.3e" % (n, v)))
     B, keys = P.comp_matrix(names)
     for row, k in zip(B, keys):
         d = sum(b * (xv - cv) for b, xv, cv in zip(row, x, c0))
         sc = sum(abs(b) * (abs(xv) + cv) for b, xv, cv in zip(row, x, c0))
         if abs(d) > CONS_RTOL * sc + CONS_ATOL:
-            bad.append("%s not conserved: total changes by %.3e (scale %.3e)" %
-                       ("charge" if k == 0 else "element Z=%d" % k, d, sc))
+            tx = sum(b * xv for b, xv in zip(row, x))
+            t0 = sum(b * cv for b, cv in zip(row, c0))
+            lost = k != 0 and abs(tx) <= 1e-6 * t0
+            bad.append(("element_lost" if lost else "conservation",
+                        "%s not conserved: total changes by %.3e (scale %.3e)" %
+                        ("charge" if k == 0 else "element Z=%d" % k, d, sc)))
     rxns = _rxns_of(case)
     if case["kind"] == "precip":
         solid = case["solid"]
@@ -195,19 +203,19 @@ def _oracle(case, x):
         ksp = case["K"][0]
         if xs > ABSENT:
             if not (ip > 0 and abs(math.log(ip) - math.log(ksp)) <= LNQ_TOL):
-                bad.append("solid present (%.3e) but ion product %.6e != Ksp %.6e" % (xs, ip, ksp))
+                bad.append(("precipitation", "solid present (%.3e) but ion product %.6e != Ksp %.6e" % (xs, ip, ksp)))
         else:
             if not ip <= ksp * (1 + LNQ_TOL):
-                bad.append("solid absent (%.3e) but ion product %.6e > Ksp %.6e" % (xs, ip, ksp))
+                bad.append(("precipitation", "solid absent (%.3e) but ion product %.6e > Ksp %.6e" % (xs, ip, ksp)))
     else:
         for (re_, pr), K, tag in zip(rxns, case["K"], case["rxns"]):
             nu = P.net_stoich(re_, pr, names)
             if any(n and v <= 0 for n, v in zip(nu, x)):
-                bad.append("Q undefined/zero for %s (non-positive participant)" % tag)
+                bad.append(("quotient", "Q undefined/zero for %s (non-positive participant)" % tag))
                 continue
             lnq = sum(n * math.log(v) for n, v in zip(nu, x) if n)
             if abs(lnq - math.log(K)) > LNQ_TOL:
-                bad.append("Q/K - 1 = %.3e for %s" % (math.expm1(lnq - math.log(K)), tag))
+                bad.append(("quotient", "Q/K - 1 = %.3e for %s" % (math.expm1(lnq - math.log(K)), tag)))
     return bad
 
 
@@ -225,16 +233,18 @@ def run_root_case(case):
                     es = P.build_eqsys(case["names"], _rxns_of(case), case["K"])
                 x, success, sane = _call(es, case, chain)
             except Exception as e:  # chempy raising on a valid input is a violation
-                out.append({"chain": chain, "claimed": False, "holds": False, "exc": True,
+                out.append({"chain": chain, "claimed": False, "holds": False, "exc": True, "symptom": "exception",
                             "detail": "exception %s: %s" % (type(e).__name__, str(e)[:300])})
                 continue
             if success and sane:
                 bad = _oracle(case, x)
+                sym = [p for p in SYMPTOMS if any(b[0] == p for b in bad)]
                 out.append({"chain": chain, "claimed": True, "holds": not bad, "exc": False,
-                            "detail": "success and sane reported for x=%r but %s" % (x, "; ".join(bad)) if bad
-                            else "genuine"})
+                            "symptom": sym[0] if sym else None,
+                            "detail": "success and sane reported for x=%r but %s" % (x, "; ".join(b[1] for b in bad))
+                            if bad else "genuine"})
             else:
-                out.append({"chain": chain, "claimed": False, "holds": True, "exc": False,
+                out.append({"chain": chain, "claimed": False, "holds": True, "exc": False, "symptom": None,
                             "detail": "no claim (success=%s sane=%s)" % (success, sane)})
     return out
 
@@ -310,7 +320,8 @@ def run(tier, seed):
             calls += 1
             claims += r["claimed"]
             if not r["holds"]:
-                viol.append({"inputs": case, "chain": r["chain"], "detail": "[chain %s] %s" % (r["chain"], r["detail"])})
+                viol.append({"inputs": case, "chain": r["chain"], "symptom": r["symptom"],
+                             "detail": "[chain %s] %s" % (r["chain"], r["detail"])})
     # violations outside the known region (chain Lin) first: the reporter forwards only the first few
     viol.sort(key=lambda v: (v["chain"] == "Lin", v["inputs"]["id"] != WITNESS["id"]))
     all_cases = [WITNESS] + homog + precip
